@@ -37,7 +37,8 @@ const NAMES: [&str; 4] = ["a", "ab", ".h", "e é"];
 
 pub fn content(idx: usize) -> Vec<u8> {
     let n = [0usize, 1, 1023, 1024, 1025, 4097, 8193, 70001][idx % 8];
-    (0..n).map(|i| b'a' + (i % 23) as u8).collect()
+    // all byte values, with CR LF pairs, NUL and invalid UTF-8 among them
+    (0..n).map(|i| if i % 97 == 5 { b'\r' } else if i % 97 == 6 { b'\n' } else { ((i * 7 + 13) % 256) as u8 }).collect()
 }
 
 fn children<'a>(t: &'a Tree, dir: &str) -> Vec<&'a String> {
